@@ -189,18 +189,18 @@ type c18Exec struct {
 }
 
 type c18Outcome struct {
-	crashed     bool
-	flushErr    error
-	flushOps    map[int][2]int // op index -> [first fs op number, last fs op number]
-	writeSizes  map[int]int    // fs op number -> size of that write
-	modelAt     map[int]c18Model
-	violation   string
-	class       string
-	endModel    c18Model
-	durableU    string // model string of the users table as of the last successful users flush
-	durableR    string
-	fired       string
-	initial     c18Model
+	crashed    bool
+	flushErr   error
+	flushOps   map[int][2]int // op index -> [first fs op number, last fs op number]
+	writeSizes map[int]int    // fs op number -> size of that write
+	modelAt    map[int]c18Model
+	violation  string
+	class      string
+	endModel   c18Model
+	durableU   string // model string of the users table as of the last successful users flush
+	durableR   string
+	fired      string
+	initial    c18Model
 }
 
 func buildC18(tier string) sim.Scenario {
